@@ -148,6 +148,14 @@ func init() {
 		Technique: "contract-based deductive verification: bank-level settlement postconditions on the real swap functions (per hop and per route: sender debited exactly, recipient credited at least, nobody else's balance moves), accept-only-enqueues frames on the message handlers, structural obligations on the end-of-block batch (requests applied on fresh cache contexts, written only after success); VCs from go/ssa discharged by z3/cvc5"})
 	register(&PropSpec{ID: "C11", Level: "proof", Contracts: true,
 		Technique: "contract-based deductive verification: functional contracts on the two accounted-pool update functions (accounted balance of every listed denom = reserve of the pool object handed in + perpetual liabilities - custody of the perpetual pool object handed in; recorded perpetual part kept by liquidity-pool changes), interface contracts on the perpetual position hooks whose preconditions (the two pool objects are the stored ones, quantified over denoms) are proved at the call sites in x/perpetual; VCs from go/ssa discharged by z3/cvc5"})
+	register(&PropSpec{ID: "C09", Level: "proof", Contracts: true,
+		Technique: "contract-based deductive verification: delta-match contracts on the real perpetual functions that move position amounts (Borrow, Repay, borrow-interest settlement, funding collection and distribution, consolidation merge): whatever they add to or take from a position's custody, liabilities and collateral they add to or take from the pool's book for that side and asset, and from no other; type-level contracts on the pool's update functions; open-position counter in step with the stored positions on SetMTP/DestroyMTP; VCs from go/ssa discharged by z3/cvc5. Partial: per-operation on the objects handed in, not yet the stored-state sum over all positions; custody backing by the liquidity pool not decided"})
+	register(&PropSpec{ID: "C13", Level: "proof", Contracts: true, Extra: func(e *Engine, pc *PropertyCheck) {
+		e.writerClosure(pc, "C13", "masterchef", "masterchef:types.GetUserRewardInfoKey", "masterchef:types.GetPoolRewardInfoKey")
+	},
+		Technique: "contract-based deductive verification: functional contracts on the real masterchef accrual functions (UpdateAccPerShare credits amount/total committed rounded down and nothing when nothing is committed; the deposit/withdraw hooks settle what the old balance earned and checkpoint the new balance against the current reward per share, for every reward denom GetRewardDenoms names; GetRewardDenoms names the base currency, Eden when enabled and every external reward denom of the pool), row-key invariants, `callers` clauses and a writer-closure scan pinning every writer of the two reward tables; VCs from go/ssa discharged by z3/cvc5. Partial: accrual only - the solvency half (module balance >= sum of pending) is not decided"})
+	register(&PropSpec{ID: "C18", Level: "proof", Contracts: true, Extra: c18Extra,
+		Technique: "contract-based deductive verification: `nopanic` contracts on block functions - every Go panic site reachable in the function and in the callees executed in line (explicit panics, nil dereference, index out of range, division by zero and negative-coin panics of the SDK math and coin types as modelled) is an obligation that the path reaching it is infeasible; deferred recover() is modelled; VCs from go/ssa discharged by z3/cvc5. Coverage listing of all module block functions in the evidence"})
 	register(&PropSpec{ID: "C10", Level: "proof", Contracts: true,
 		Technique: "contract-based deductive verification: gate postconditions on the real liquidation / stop-loss / take-profit helpers of leveragelp and perpetual (a force close runs only behind the stated comparison on the values the module computes at that moment; a position off its trigger is left alone), opens and consolidating re-opens store a health strictly above the safety factor read at that moment, owner-keyed lookups on user closes, `callers` clauses pinning every route to the force-close and repay functions; VCs from go/ssa discharged by z3/cvc5"})
 	register(&PropSpec{ID: "C14", Level: "proof", Contracts: true,
